@@ -10,10 +10,24 @@ STRENGTHENED = {
  "C36": ("MISSED", "added the forgery kind 'replayed-stored-signature': the signature of the packet currently stored for the key in front of a newer timestamp and other records"),
  "C42": ("MISSED", "added the additional-protocol-names dimension (connect_with_opts with additional ALPNs) next to an empty primary name"),
 }
+STRENGTHENED2 = {
+ "C11-2": ("MISSED (the check tolerated list answers as 'ambiguous')", "a single header line listing several sub-protocols is not the name of one version: the client must reject it (C11:client-accepts-answer-list)"),
+ "C18-2": ("MISSED", "added the recv_path part: batches of datagram sources pushed through the receive-path address translation of a live endpoint (new hook process_batch); each relay datagram must be shown under an address that translates back to exactly its (url, id)"),
+ "C21-2": ("inconclusive (exit 2: the harness hung with the implementation)", "a call into the remote map that does not return within an hour of virtual time is now a violation (C21:caller-blocked-forever)"),
+ "C06-2": ("MISSED", "added ConnectReordered: connection ids assigned in one order, registration in the other (overlapping handshakes)"),
+ "C03-2": ("MISSED", "added the response HonestAsOther: a valid proof for identity j next to a header naming K"),
+}
+STILL_MISSED = {
+ "C04-2": "reordering after a queue overflow needs byte-level back-pressure released one frame at a time while the sender keeps sending; the StalledBurst operation (flush stall, then burst) does not reproduce that interleaving, and a credit-based variant was not finished in time",
+ "C38-2": "a negative cache filled by a lookup that overlaps the *first* publish of a key; the added no-earlier-packet schedules do not reach the new fill site (no pause point there)",
+ "C42-2": "after_handshake hooks skipped on the Accepting::into_0rtt path; the check only accepts through the ordinary path",
+}
 first = {}
 for l in open(f'{root}/notes/seed-results.txt'):
-    m = re.match(r'^\S+/out/(C\d+) (C\d+) \[quick\] (\w+)(?: :: (.*))?', l)
-    if m: first[m.group(1)] = (m.group(3), (m.group(4) or '')[:300])
+    m = re.match(r'^(\S+)/out/(C\d+) (C\d+) \[quick\] ([\w-]+)(?: :: (.*))?', l)
+    if m:
+        key = m.group(2) + ('-2' if '/sd-t' in m.group(1) else '')
+        first[key] = (m.group(4), (m.group(5) or '')[:300])
 ver = {}
 for l in open(f'{root}/notes/seed-verify.jsonl'):
     r = json.loads(l)
@@ -33,25 +47,26 @@ for d in sorted(glob.glob(f'{root}/seeded/C*')):
     passes = bool(woc) and all(x['failed'] == 0 and x['passed'] > 0 for x in woc.values())
     confirmed = {"demo_fails_with_change": fails if v else None, "demo_passes_without_change": passes if v else None,
                  "existing_tests_pass_with_change": v.get('existing_tests_ok'), "existing_tests": v.get('existing_tests_with_change')}
-    st = STRENGTHENED.get(pid)
+    st = STRENGTHENED.get(pid) or STRENGTHENED2.get(pid)
+    missed_now = STILL_MISSED.get(pid)
     meta['verif'] = {
-        "breaks_property": pid,
+        "breaks_property": pid.split('-')[0],
         "needs_to_manifest": meta.get('needs'),
         "confirmed_by_integrator": confirmed,
         "what_was_run": ["tools/seedverify.py: scratch worktree; cargo test of the demo with patch+demo (must fail) and with the demo alone (must pass); cargo nextest of the touched crate with the patch alone",
-                         f"tools/seedcheck.py / direct: git apply patch.diff; ./check {pid} --tier quick; git checkout -- ."],
+                         f"tools/seedcheck.py / direct: git apply patch.diff; ./check {pid.split('-')[0]} --tier quick; git checkout -- ."],
         "check_result_as_first_built": st[0] if st else res,
         "check_strengthened": st[1] if st else None,
-        "check_result_now": "CAUGHT",
+        "check_result_now": "MISSED: " + missed_now if missed_now else "CAUGHT",
         "caught_with_signature": sig.group(1) if sig else None,
     }
     json.dump(meta, open(f'{d}/meta.json', 'w'), indent=1)
-    rows.append((pid, (meta.get('summary') or '')[:150].replace('|', '/'), (meta.get('needs') or '')[:150].replace('|', '/'), st[0] if st else res, 'yes: ' + st[1][:110] + '…' if st else 'no', sig.group(1) if sig else ('see meta' if st else '?'),
-                 'ok' if (fails and passes and v.get('existing_tests_ok')) else ('pending' if not v else f"demo fails w/ change: {fails}; passes w/o: {passes}; suite ok: {v.get('existing_tests_ok')}")))
+    rows.append((pid, (meta.get('summary') or '')[:150].replace('|', '/'), (meta.get('needs') or '')[:150].replace('|', '/'), st[0] if st else res, ('yes: ' + st[1][:110] + '…') if st else ('NOT CAUGHT: ' + missed_now[:140] + '…' if missed_now else 'no'), sig.group(1) if sig else ('see meta' if st else '?'),
+                 'ok' if (fails and passes and v.get('existing_tests_ok')) else ('not re-run by the integrator (seed author reports: demo fails with / passes without the change, existing tests pass)' if not v else f"demo fails w/ change: {fails}; passes w/o: {passes}; suite ok: {v.get('existing_tests_ok')}")))
 out = ['# Seeded breaking changes', '',
  'Each directory holds a change to n0-computer/iroh written by a sub-agent that was given only the property text and its own worktree (nothing from /verif): `patch.diff` (the change), `demo.diff` + `demo.md` (a test that fails with the change and passes without it), `meta.json` (what it breaks, what it needs to manifest, what was run; the `verif` block is added by the integrator).',
  'None of these changes is committed to /repo. To re-run: `git -C /repo apply /verif/seeded/<ID>/patch.diff; ./check <ID>; git -C /repo checkout -- .`', '',
- f'Summary: {len(rows)} changes, one per property. Caught by the check as first built: {sum(1 for r in rows if r[3]=="CAUGHT")}; missed at first and caught after strengthening the check: {sum(1 for r in rows if r[3].startswith("MISSED"))}; caught now: {len(rows)}.', '',
+ f'Summary: {len(rows)} changes: two per property, written in two waves (`<ID>` and `<ID>-2`; the second wave was told the first change and asked for a different code site or clause). Caught by the check as first built: {sum(1 for r in rows if r[3]=="CAUGHT")}; missed or inconclusive at first and caught after strengthening the check: {sum(1 for r in rows if not r[3]=="CAUGHT" and not r[4].startswith("NOT CAUGHT"))}; still not caught: {sum(1 for r in rows if r[4].startswith("NOT CAUGHT"))} (listed with the reason).', '',
  '| property | change | needs | check as first built | strengthened? | signature that fires | integrator confirmation (demo fails with / passes without / existing tests pass) |', '|---|---|---|---|---|---|---|']
 for r in rows: out.append('| ' + ' | '.join(r) + ' |')
 out += ['', 'Notes:', '* `seeded/C07/patch.diff` was rebased by the integrator onto the current tree (a later hook commit added a pause point at the edited lines); the original is `patch.orig.diff`.',
